@@ -30,7 +30,21 @@ def compile_src(src, opts=None, as_dict=False):
     o.update(opts or {})
     if isinstance(src, dict):
         src = dict(src)
-    return cc(src, dict(o) if as_dict else CO(**o))
+    r = cc(src, dict(o) if as_dict else CO(**o))
+    for _ in range(2):
+        # the constexpr child has a 1 s budget that includes python start-up: under CPU load a terminating body
+        # times out (the baseline lists constexpr_eval as flaky) -> retry, callers treat a remaining timeout as inconclusive
+        if not is_timeout(r):
+            break
+        import time
+
+        time.sleep(0.5)
+        r = cc(dict(src) if isinstance(src, dict) else src, dict(o) if as_dict else CO(**o))
+    return r
+
+
+def is_timeout(r):
+    return isinstance(r, dict) and isinstance(r.get("error"), dict) and "Timeout during evaluating constexpr" in str(r["error"].get("description", ""))
 
 
 def directive_options(src, base):
